@@ -14,14 +14,16 @@ from harness import common, par, refscope, sitegen
 
 def gen_case(rng):
     scenario = rng.choice(['links', 'links', 'redirect-other-host', 'redirect-rejected-path', 'redirect-above-parent',
-                           'robots-redirect-other-host', 'requisite-other-host', 'start-url-redirects-above-parent'])
+                           'robots-redirect-other-host', 'requisite-other-host', 'start-url-redirects-above-parent',
+                           'rejected-start-url'])
     opts = {'recursive': True, 'level': rng.choice([0, 2, 3]), 'page_requisites': rng.random() < 0.6,
             'page_requisites_level': 5,
             'no_parent': scenario in ('redirect-above-parent', 'start-url-redirects-above-parent') or rng.random() < 0.2,
-            'reject_regex': r'(forbidden|\.zip$)' if scenario == 'redirect-rejected-path' or rng.random() < 0.3 else None,
+            'reject_regex': r'(forbidden|\.zip$)' if scenario in ('redirect-rejected-path', 'rejected-start-url') or rng.random() < 0.3 else None,
             'accept_regex': None, 'tries': 20, 'span_hosts': False,
             'span_hosts_allow': rng.choice([[], [], ['page-requisites'], ['linked-pages']]),
-            'strong_redirects': rng.random() < 0.6, 'robots': scenario.startswith('robots') or rng.random() < 0.2,
+            'strong_redirects': rng.random() < 0.6,
+            'robots': scenario.startswith('robots') or scenario == 'rejected-start-url' or rng.random() < 0.2,
             'concurrent': rng.choice([1, 2, 4])}
     return {'scenario': scenario, 'opts': opts, 'site_seed': rng.randrange(1 << 30), 'delay_seed': rng.randrange(1 << 30)}
 
@@ -123,7 +125,12 @@ def run_case(case, part):
     tmp = tempfile.mkdtemp(prefix='vc02')
     try:
         db = os.path.join(tmp, 'crawl.db')
-        res = crawl.run_app(argv_for(opts, site.start, db, tmp), {'a.test': addrs[0], 'b.test': addrs[1]})
+        argv = argv_for(opts, site.start, db, tmp)
+        if sc == 'rejected-start-url':
+            # a second start URL, on another host, that the reject rule refuses: nothing of that host may be contacted, not
+            # even its robots.txt
+            argv.insert(1, 'http://b.test/forbidden/start.html')
+        res = crawl.run_app(argv, {'a.test': addrs[0], 'b.test': addrs[1]})
         rows = crawl.read_table(db) if os.path.exists(db) else []
         log = srv.log.snapshot()
     finally:
@@ -205,8 +212,9 @@ def run_case(case, part):
             part.count('crawl_redirect_hops_in_scope')
     # the link records the filters were evaluated with must describe the real discovery (depth, inline depth, parent,
     # root): a record that claims an embedding where the page merely links (or a smaller depth) defeats the rules
+    starts = {site.start} | ({'http://b.test/forbidden/start.html'} if sc == 'rejected-start-url' else set())
     for url, row in rowmap.items():
-        if url == site.start:
+        if url in starts:
             # a start URL is its own root (and parent) at depth 0
             if row['root'] != url or row['level'] != 0 or row['inline_level']:
                 part.violation('row-metadata-wrong/start-url', {'row': row}, replay)
